@@ -1,6 +1,6 @@
 (* C09 — the property statements, proved from the invariants of the other proof files. *)
 From OlaBase Require Import Bytes.
-From C09 Require Import Gen Model FrameProofs DispatchProofs OnceProofs.
+From C09 Require Import Gen Model FrameProofs DispatchProofs OnceProofs ServerProofs.
 Local Open Scope N_scope.
 
 Lemma write_ok_write off n al bs :
@@ -14,9 +14,8 @@ Section Final.
 Variable decode : list N -> option msg.
 Variable method_kind : list N -> N.
 Variable req_ok : list N -> bool.
-Variable service : list N -> list N -> sres.
-Variable call_name call_req : list N.
-Notation run := (run decode method_kind req_ok service call_name call_req).
+Variable service : list N -> list N -> option sres.
+Notation run := (run decode method_kind req_ok service).
 Notation descriptor_ready := (descriptor_ready decode method_kind req_ok service).
 
 Lemma frame_safe r0 ops f r tr :
@@ -67,29 +66,74 @@ Proof. intros. eapply run_dispatch; eauto. Qed.
 
 Lemma once s0 ops f r tr :
   s0 < 4294967296 ->
-  run init_frame (mkRpc false s0 0 []) ops = (f, r, tr) ->
+  run init_frame (mkRpc false s0 0 [] 0 [] []) ops = (f, r, tr) ->
   (forall k, k < ncalls r ->
-     (cnt k (dones tr) = 1%nat /\ lookup (u32 (s0 + k)) (responses r) <> Some k) \/
-     (cnt k (dones tr) = 0%nat /\ lookup (u32 (s0 + k)) (responses r) = Some k)) /\
+     (In k (streams tr) /\ cnt k (dones tr) = 0%nat /\ lookup (u32 (s0 + k)) (responses r) <> Some k) \/
+     (~ In k (streams tr) /\
+      ((cnt k (dones tr) = 1%nat /\ lookup (u32 (s0 + k)) (responses r) <> Some k) \/
+       (cnt k (dones tr) = 0%nat /\ lookup (u32 (s0 + k)) (responses r) = Some k)))) /\
   (forall k, ncalls r <= k -> cnt k (dones tr) = 0%nat) /\
   (forall id k, lookup id (responses r) = Some k -> k < ncalls r /\ id = u32 (s0 + k)) /\
   (forall k o, In (k, o) (dones tr) ->
      o = OFailed TXT_SEND_FAILED \/ o = OFailed TXT_DUPLICATE \/
-     exists m, In m (dispatched tr) /\ m_id m = u32 (s0 + k) /\ resp_outcome m = Some o).
+     exists m, In m (dispatched tr) /\ m_id m = u32 (s0 + k) /\ resp_outcome m = Some o) /\
+  seq r = u32 (s0 + ncalls r) /\
+  (forall k, In k (streams tr) -> k < ncalls r).
 Proof.
-  intros Hs H. apply run_once in H; [|exact Hs]. destruct H as (A & B & C & D & E).
-  split; [exact B|]. split; [exact C|]. split; [exact A|].
+  intros Hs H. apply run_once in H; [|exact Hs]. destruct H as (A & B & C & D & E & F).
+  split; [exact B|]. split; [exact C|]. split; [exact A|]. split; [|split; [exact D|exact F]].
   intros k o Hi. apply (E (k, o)) in Hi. exact Hi.
 Qed.
 
-Lemma send_failed cl ok r r' evs :
+(* what a call puts on the wire: its own sequence number; a streaming call completes and registers nothing *)
+Lemma call_wire cl ok st nm rq r r' evs :
+  call_method cl ok st nm rq r = (r', evs) ->
+  (forall m, In m (sends evs) -> m = mkMsg (if st then STREAM_REQUEST else REQUEST) (seq r) nm rq) /\
+  ncalls r' = ncalls r + 1 /\ seq r' = u32 (seq r + 1) /\
+  (st = true -> dones evs = [] /\ responses r' = responses r).
+Proof.
+  unfold call_method, send_msg; cbn [dead seq ncalls responses next_call].
+  assert (Fin : forall (P : Prop), P -> P) by auto.
+  destruct (dead r || cl); destruct ok; destruct st; cbn;
+    try destruct (lookup (seq r) (responses r)); intros H; inversion H; subst; cbn;
+    (split; [intros m Hm; cbn in Hm; repeat (destruct Hm as [Hm|Hm]; [subst; reflexivity|]); contradiction|]);
+    repeat split; auto; discriminate.
+Qed.
+
+Lemma stream_ids s0 k k' :
+  k' < k -> k < k' + 4294967296 -> u32 (s0 + k) <> u32 (s0 + k').
+Proof. exact (ids_distinct s0 k k'). Qed.
+
+(* no reply completes a call other than the one whose id it carries *)
+Lemma no_cross s0 ops f r tr :
+  s0 < 4294967296 ->
+  run init_frame (mkRpc false s0 0 [] 0 [] []) ops = (f, r, tr) ->
+  forall m k k', lookup (m_id m) (responses r) = Some k' -> m_id m = u32 (s0 + k) ->
+  k < k' + 4294967296 -> k' < k + 4294967296 -> k' = k.
+Proof.
+  intros Hs H m k k' Hl Hid H1 H2. apply run_once in H; [|exact Hs]. destruct H as (A & _).
+  apply A in Hl. destruct Hl as [_ Hid']. unfold idof in Hid'.
+  destruct (N.lt_trichotomy k k') as [Hlt|[He|Hgt]]; [|auto|].
+  - exfalso. apply (ids_distinct s0 k' k Hlt H2). unfold idof. congruence.
+  - exfalso. apply (ids_distinct s0 k k' Hgt H1). unfold idof. congruence.
+Qed.
+
+(* serving side: every reply written carries the id of a request that was dispatched *)
+Lemma reply_ids r0 ops f r tr :
+  requests r0 = [] ->
+  run init_frame r0 ops = (f, r, tr) ->
+  forall m', In m' (sends tr) -> is_reply m' = true ->
+  exists m, In m (dispatched tr) /\ m_id m = m_id m' /\ is_request m = true.
+Proof. exact (run_replies decode method_kind req_ok service r0 ops f r tr). Qed.
+
+Lemma send_failed cl ok nm rq r r' evs :
   ok = false \/ dead r || cl = true ->
-  call_method call_name call_req cl ok r = (r', evs) ->
+  call_method cl ok false nm rq r = (r', evs) ->
   dones evs = [(ncalls r, OFailed TXT_SEND_FAILED)] /\ responses r' = responses r.
 Proof.
   intros [->|H].
-  - exact (OnceProofs.call_send_failed call_name call_req cl r r' evs).
-  - exact (OnceProofs.call_send_failed_closed call_name call_req cl ok r r' evs H).
+  - exact (OnceProofs.call_send_failed cl nm rq r r' evs).
+  - exact (OnceProofs.call_send_failed_closed cl ok nm rq r r' evs H).
 Qed.
 
 End Final.
